@@ -23,6 +23,7 @@ def swarm_knobs(rng, *, reorg=False, small_chunks=True, faults=True):
     k['max_hist_row'] = rng.choice([None, None, 2, 3, 7, 50])
     k['urls'] = rng.choice([1, 1, 1, 2, 3])        # daemon URLs (all front the same chain)
     k['file_size'] = rng.choice([None, None, None, 173, 1000, 4099, 65536])    # physical files of the meta LogicalFiles
+    k['queue_p'] = rng.choice([0.0, 0.0, 0.0, 0.0, 0.03, 0.15])                   # jobs waiting in the executor's queue
     return k
 
 
